@@ -20,7 +20,7 @@ package aucoalesce
 // CoalesceMessages over the same messages, which is the property's concern), so
 // the maps returned by Data() are the messages' own, not fresh ones.
 //
-//@ spec msgOK(m *auparse.AuditMessage) bool := m != nil && -1 <= m.offset && m.offset <= len(m.RawData) && (m.data != nil || !isNil(m.error))
+//@ spec msgOK(m *auparse.AuditMessage) bool := m != nil && allocated(m) && -1 <= m.offset && m.offset <= len(m.RawData) && (m.data != nil || !isNil(m.error))
 //
 //@ func aucoalesce.newEvent
 //@ frame-fresh[C15]
@@ -30,7 +30,7 @@ package aucoalesce
 // C09: the event takes its identity from msg (the first record) when there is one, else from the syscall record.
 //@ ensures[C09] msg != nil ==> result0.Timestamp == msg.Timestamp && result0.Sequence == msg.Sequence && result0.Type == msg.RecordType
 //@ ensures[C09] msg == nil ==> result0.Timestamp == syscall.Timestamp && result0.Sequence == syscall.Sequence && result0.Type == syscall.RecordType
-//@ ensures[C15] (msg != nil ==> msgOK(msg)) && (syscall != nil ==> msgOK(syscall))
+//@ ensures[C15] (msg != nil ==> msgOK(msg) && msg.data == old(msg.data)) && (syscall != nil ==> msgOK(syscall) && syscall.data == old(syscall.data))
 //@ loop 0 invariant fresh(event) && event.Data != nil && fresh(event.Data) && (event.User.IDs == nil || fresh(event.User.IDs)) && (event.User.SELinux == nil || fresh(event.User.SELinux))
 //
 //@ func aucoalesce.addExecveRecord
@@ -39,7 +39,7 @@ package aucoalesce
 //@ requires msgOK(execve) && event != nil && event.Data != nil
 //@ modifies event.*, elems(event.Warnings), mapOf(event.Data), alloc, execve.data, execve.error, execve.tags
 //@ ensures[C15] event.Data == old(event.Data)
-//@ ensures[C15] msgOK(execve)
+//@ ensures[C15] msgOK(execve) && execve.data == old(execve.data)
 //@ loop 0 invariant event.Warnings == old(event.Warnings) && event.Data == old(event.Data) && (base(args) == 0 || fresh(args))
 //
 //@ func aucoalesce.addPathRecord
@@ -48,23 +48,36 @@ package aucoalesce
 //@ requires msgOK(path) && event != nil && event.Data != nil
 //@ modifies event.*, elems(event.Warnings), elems(event.Paths), alloc, path.data, path.error, path.tags
 //@ ensures[C15] event.Data == old(event.Data)
-//@ ensures[C15] msgOK(path)
+//@ ensures[C15] msgOK(path) && path.data == old(path.data)
 //
 //@ func aucoalesce.addSockaddrRecord
 //@ frame-fresh[C15]
+// C09 no-drop for the SOCKADDR record: unless a warning is attached, every key of
+// the record is in the event as socket_<key> with the record's value.
+//@ requires event.Data != sockaddr.data
+//@ ensures[C09] len(event.Warnings) == old(len(event.Warnings)) ==> forall k string :: k in old(sockaddr.data) ==> ("socket_" ++ k) in event.Data && event.Data["socket_" ++ k] == old(sockaddr.data)[k]
+//@ loop 0 invariant data == old(sockaddr.data) && event.Data == old(event.Data) && len(event.Warnings) == old(len(event.Warnings))
+//@ loop 0 invariant forall k string :: visited(k) ==> ("socket_" ++ k) in event.Data && event.Data["socket_" ++ k] == data[k]
 //@ ensures[C09] event.Timestamp == old(event.Timestamp) && event.Sequence == old(event.Sequence) && event.Type == old(event.Type)
 //@ requires msgOK(sockaddr) && event != nil && event.Data != nil
 //@ modifies event.*, elems(event.Warnings), mapOf(event.Data), alloc, sockaddr.data, sockaddr.error, sockaddr.tags
 //@ ensures[C15] event.Data == old(event.Data)
-//@ ensures[C15] msgOK(sockaddr)
+//@ ensures[C15] msgOK(sockaddr) && sockaddr.data == old(sockaddr.data)
 //
 //@ func aucoalesce.addFieldsToEventData
 //@ frame-fresh[C15]
+// C09 no-drop for the other records: every key of the record is in the event
+// afterwards, with the record's value unless a (duplicate-key) warning was attached.
+//@ requires event.Data != msg.data
+//@ ensures[C09] len(event.Warnings) >= old(len(event.Warnings))
+//@ ensures[C09] isNil(msg.error) ==> forall k string :: k in old(msg.data) ==> k in event.Data && (event.Data[k] == old(msg.data)[k] || len(event.Warnings) > old(len(event.Warnings)))
+//@ loop 0 invariant data == old(msg.data) && len(event.Warnings) >= old(len(event.Warnings))
+//@ loop 0 invariant forall k string :: visited(k) ==> k in event.Data && (event.Data[k] == data[k] || len(event.Warnings) > old(len(event.Warnings)))
 //@ ensures[C09] event.Timestamp == old(event.Timestamp) && event.Sequence == old(event.Sequence) && event.Type == old(event.Type)
 //@ requires msgOK(msg) && event != nil && event.Data != nil
 //@ modifies event.*, elems(event.Warnings), mapOf(event.Data), alloc, msg.data, msg.error, msg.tags
 //@ ensures[C15] event.Data == old(event.Data)
-//@ ensures[C15] msgOK(msg)
+//@ ensures[C15] msgOK(msg) && msg.data == old(msg.data)
 //@ loop 0 invariant event.Data == old(event.Data) && (base(event.Warnings) == old(base(event.Warnings)) || fresh(event.Warnings))
 //
 //@ func aucoalesce.normalizeCompound
@@ -81,8 +94,10 @@ package aucoalesce
 //@ loop 0 invariant (rangeindex >= 0 ==> special == msgs[0]) && (rangeindex == -1 ==> special == nil)
 //@ loop 1 invariant event.Timestamp == msgs[0].Timestamp && event.Sequence == msgs[0].Sequence && event.Type == msgs[0].RecordType
 //@ loop 0 invariant forall j int :: lo(msgs) <= j && j < hi(msgs) ==> msgOK(at(msgs, j))
+//@ loop 0 invariant forall j int :: lo(msgs) <= j && j < hi(msgs) ==> !fresh(at(msgs, j).data)
 //@ loop 0 invariant (special == nil || msgOK(special)) && syscall == nil
 //@ loop 1 invariant fresh(event) && event.Data != nil && fresh(event.Data)
+//@ loop 1 invariant forall j int :: lo(msgs) <= j && j < hi(msgs) ==> !fresh(at(msgs, j).data)
 //@ loop 1 invariant forall j int :: lo(msgs) <= j && j < hi(msgs) ==> msgOK(at(msgs, j))
 
 // The id caches are shared by all events: their map is only touched under the
